@@ -355,10 +355,11 @@ class Run(RunBase):
         fn = {"lanelet": self.net.remove_lanelet, "sign": self.net.remove_traffic_sign,
               "light": self.net.remove_traffic_light, "intersection": self.net.remove_intersection}[kind]
         try:
+            xa = np.int64(x) if op.get("np_id") else x  # ids often come out of numpy arrays
             if kind == "lanelet" and op.get("rtree") is False:
-                fn(x, rtree=False)  # the spatial index is not C10's business; references must be cleaned all the same
+                fn(xa, rtree=False)  # the spatial index is not C10's business; references must be cleaned all the same
             else:
-                fn(x)
+                fn(xa)
         except Exception as e:  # noqa
             raise Violation(f"C10/removal-raised/{self.last}", f"{self.last}({x}) raised {type(e).__name__}: {e}")
         {"lanelet": self.m.remove_lanelet, "sign": self.m.remove_sign, "light": self.m.remove_light,
@@ -589,7 +590,8 @@ def _remover(rng, run, cfg):
             gone = rng.choice([x for x in range(1, 130) if x not in a[part[kind]]])
             yield {"op": "net_remove_absent", "kind": kind, "id": gone}
         elif rng.chance(cfg["p_net_level"]):
-            yield {"op": "net_remove", "kind": kind, "ids": [rng.pick(ids)], "rtree": rng.chance(0.8)}
+            yield {"op": "net_remove", "kind": kind, "ids": [rng.pick(ids)], "rtree": rng.chance(0.8),
+                   "np_id": rng.chance(0.3)}
         else:
             form = rng.choice(["single", "list"])
             n = 1 if form == "single" else rng.randint(1, min(3, len(ids)))
